@@ -7,6 +7,7 @@ import (
 	"math/rand"
 
 	"verif/env"
+	"verif/mon"
 
 	"github.com/youchainhq/go-youchain/common"
 	"github.com/youchainhq/go-youchain/core"
@@ -57,10 +58,40 @@ func RandomEvidenceTargets(r *Run, st *state.StateDB, n uint64) []common.Address
 	}
 	v := r.W.pickVal(st, func(v *state.Validator) bool {
 		pen := new(big.Int).Mul(v.Token, big.NewInt(2))
-		return !r.W.isAnchor(v) && r.W.ValIndex(v.MainAddress()) >= 0 && pen.Cmp(big.NewInt(100)) >= 0
+		if r.W.isAnchor(v) || r.W.ValIndex(v.MainAddress()) < 0 || pen.Cmp(big.NewInt(100)) < 0 {
+			return false
+		}
+		// most chains accuse only validators with at least one unit of self stake: the penalty is then
+		// certainly positive. Accusing a validator without self stake can wreck the block in two known
+		// ways (stake 0: division by zero; nothing collectable: builder expels without SlashData), so
+		// only the reckless chains do it.
+		return r.Sc.RecklessEvidence || v.SelfStake.Sign() > 0
 	})
 	if v == nil {
 		return nil
 	}
 	return []common.Address{v.MainAddress()}
+}
+
+// EvidenceClass recognises, by observation, the one anticipated cause of a builder/importer
+// divergence: evidence was handed to the builder, the builder changed the accused validator's record,
+// but the header carries no SlashData for an importer to replay.
+func EvidenceClass(r *Run, b *BlockCtx, extra map[string]interface{}) string {
+	if len(b.EvidenceVals) == 0 || len(b.Block.Header().SlashData) != 0 {
+		return ""
+	}
+	pst, err := r.A.Chain.StateAt(b.Parent.Root(), b.Parent.ValRoot(), b.Parent.Header().StakingRoot)
+	if err != nil {
+		return ""
+	}
+	for _, t := range b.EvidenceVals {
+		before, after := pst.GetValidatorByMainAddr(t), b.Res.State.GetValidatorByMainAddr(t)
+		if before != nil && after != nil && (before.Expelled != after.Expelled || before.ExpelExpired != after.ExpelExpired || before.Status != after.Status) {
+			extra["accused_before"] = mon.ValString(before)
+			extra["accused_after_on_builder"] = mon.ValString(after)
+			extra["header_slashdata"] = "empty"
+			return "evidence-applied-by-builder-but-absent-from-slashdata"
+		}
+	}
+	return ""
 }
